@@ -702,10 +702,14 @@ FileList::inc_completed(iterator firstItr, uint32_t index) {
   if (firstItr == end())
     throw internal_error("FileList::inc_completed() first == m_entryList->end().", data()->hash());
 
-  // TODO: Check if this works right for zero-length files.
+  // Only files whose piece range contains the index are counted: not zero-length files the walk
+  // passes, and not the file that starts exactly at the end of the piece.
   std::for_each(firstItr,
                 lastItr == end() ? end() : (lastItr + 1),
-                std::mem_fn(&File::inc_completed_protected));
+                [index](value_type& file) {
+                  if (file->range_first() <= index && index < file->range_second())
+                    file->inc_completed_protected();
+                });
 
   return lastItr;
 }
